@@ -1414,22 +1414,9 @@ func (m *Model) datetimeMethod(a *Node, item any, next emitFn) *merr {
 		return suppErr("%s format is not recognized: %q", a.S, s)
 	}
 	want := map[string]string{"date": "date", "time": "time", "time_tz": "timetz", "timestamp": "timestamp", "timestamp_tz": "timestamptz"}[a.S]
-	// (D50) the precision belongs to the result of the cast: a zone-less timestamp is first read in the
-	// context zone and the instant is rounded then. (For every other pair rounding and casting commute,
-	// offsets being whole seconds.)
-	roundAfter := prec >= 0 && v.Kind == "timestamp" && want == "timestamptz"
-	if prec >= 0 && v.Kind != "date" && !roundAfter {
-		unit := time.Second / time.Duration(math.Pow10(prec))
-		r := v.T.Round(unit)
-		if (v.Kind == "time" || v.Kind == "timetz") && r.Day() != v.T.Day() {
-			return openErr("rounding a time past midnight")
-		}
-		if sub := v.T.Sub(v.T.Truncate(unit)); sub*2 == unit {
-			// exact ties: time.Round rounds half away from zero, which is the documented half-up for positive instants
-			_ = sub
-		}
-		v = &mdt{v.Kind, r}
-	}
+	// (D50, D54) the precision belongs to the result of the cast: the value is cast unrounded and the result is
+	// rounded. Where rounding crosses a change of the context zone's offset the other order is off by that change.
+	zoneless := v.Kind != "timestamptz" && v.Kind != "timetz"
 	if a.S != "datetime" && v.Kind != want {
 		var err *merr
 		v, err = m.castDT(v, want, a.S, s)
@@ -1437,10 +1424,18 @@ func (m *Model) datetimeMethod(a *Node, item any, next emitFn) *merr {
 			return err
 		}
 	}
-	if roundAfter {
-		// (the offset shown is the one in force at the rounded instant)
-		r := v.T.Round(time.Second / time.Duration(math.Pow10(prec))).In(m.env.zone)
-		v = &mdt{v.Kind, r.In(fixedOf(r))}
+	if prec >= 0 && v.Kind != "date" {
+		unit := time.Second / time.Duration(math.Pow10(prec))
+		r := v.T.Round(unit)
+		if (v.Kind == "time" || v.Kind == "timetz") && r.Day() != v.T.Day() {
+			return openErr("rounding a time past midnight")
+		}
+		if v.Kind == "timestamptz" && zoneless {
+			// (a value without an offset of its own shows the offset in force at the rounded instant)
+			r = r.In(m.env.zone)
+			r = r.In(fixedOf(r))
+		}
+		v = &mdt{v.Kind, r}
 	}
 	return next(v)
 }
